@@ -346,10 +346,38 @@ class CSSSerializer:
         """
         if not self.prefs.lineSeparator:
             return text
-        return self.prefs.lineSeparator.join([
-            f'{level * self.prefs.indent}{line}'
-            for line in text.split(self.prefs.lineSeparator)
-        ])
+        indent = level * self.prefs.indent
+        out = []
+        incomment = False
+        for line in text.split(self.prefs.lineSeparator):
+            # the continuation lines of a comment are content, not layout
+            out.append(line if incomment else indent + line)
+            incomment = self._endsincomment(line, incomment)
+        return self.prefs.lineSeparator.join(out)
+
+    def _endsincomment(self, line, incomment):
+        "returns if the end of `line` lies inside a comment"
+        i, end = 0, len(line)
+        while i < end:
+            if incomment:
+                i = line.find('*/', i)
+                if i < 0:
+                    return True
+                incomment = False
+                i += 2
+            elif line.startswith('/*', i):
+                incomment = True
+                i += 2
+            elif line[i] in '"\'':
+                # skip string
+                quote = line[i]
+                i += 1
+                while i < end and line[i] != quote:
+                    i += 2 if line[i] == '\\' else 1
+                i += 1
+            else:
+                i += 1
+        return incomment
 
     def _propertyname(self, property, actual):
         """
